@@ -60,6 +60,9 @@ KINDS = {
 }
 
 
+SUBCLASSES = {}
+
+
 class ImplWorld(ImplExt):
     """Interpreter with the observer heap."""
 
@@ -84,9 +87,21 @@ class ImplWorld(ImplExt):
             obs.trace = self.trace
         return len(self.heap) - 1
 
+    def _cls(self, kind):
+        """The class to construct for a kind.  In `subclass` scenarios a trivial user subclass of the library class is
+        constructed (behaviour identical; `create_or_get_observer(Base)` must find it through isinstance) - but only
+        while no observer of that kind is subscribed, so that the singleton guard (isinstance of the NEW object's class)
+        behaves exactly as for the base class."""
+        base = KINDS[kind]
+        if not getattr(self, "subclass_mode", False):
+            return base
+        if any(isinstance(o, base) for o in self.dispatcher.subscribers):
+            return base
+        return SUBCLASSES.setdefault(kind, type("User" + base.__name__, (base,), {}))
+
     def cmd_obs(self, ts):
         kind = ts[0]
-        cls = KINDS[kind]
+        cls = self._cls(kind)
         try:
             obs = cls(self.dispatcher, tag=int(ts[1])) if len(ts) > 1 else cls(self.dispatcher)
         except Exception:  # pylint: disable=broad-except
